@@ -209,7 +209,7 @@ def main():
     rep.bounds = {'levels': '1-3', 'boxes_per_level': '1-4', 'box_extent': '1-6'}
     common.run_cases(rep, run_case, cases())
     from harness import k_lemmas
-    k_lemmas.run_into(rep, ['k_expand'])
+    k_lemmas.run_into(rep, ['k_expand', 'k_slicebox'])
     from harness import conformance
     conformance.run_into(rep)
     return rep.finish()
